@@ -71,6 +71,22 @@ def gen_plan(rng, tier):
         p['focus_stall'] = ['_replace', rng.choice([0.3, 0.4, 0.6]), rng.choice([0.1, 0.2])]
         p.pop('stall', None)
         return p
+    if n >= 2 and rng.random() < 0.08:
+        # a pool appears (a silently restarted node is reconnected) while a switch is being handed to the pools, and the loop thread
+        # applying the switch is descheduled right after it has taken its snapshot of the pools
+        x = rng.randrange(1, n)
+        p['remote_nodes'] = []
+        p['exec']['reconnect_delay'] = 0.5
+        sw = p['switches'][-1]
+        sw.update(reject={}, rst_before=None, orphan_node=None, how=rng.choice(['use_none', 'set_keyspace']), slow=dict((str(i), 1) for i in range(n)),
+                  late_pool={'node': x, 'lead': rng.choice([-0.1, -0.2, -0.3, 0.05])})
+        # (the executor thread opening the pool sits right before it registers the pool; the switch starts while it sits there)
+        p['deep_stalls'] = [['run_add_or_renew_pool', line_offset('cassandra.cluster', 'Session.add_or_renew_pool', 'previous = self._pools.get(host)', 22,
+                                                                 inner='run_add_or_renew_pool'), 0.5, 4],
+                            ['_set_keyspace_for_all_pools', rng.randrange(8, 14), 0.5, 4]]
+        p.pop('stall', None)
+        p.pop('focus_stall', None)
+        return p
     if n >= 2 and rng.random() < 0.1:
         # a pool disappears (its host is convicted after a connection reset under a pending request) while a switch is being handed
         # to the pools: the executor thread handling the failure is descheduled inside Cluster.on_down, the loop thread applying
@@ -120,7 +136,8 @@ def gen_plan(rng, tier):
 def line_funcs(w):
     return [w.ccl.Session._set_keyspace_for_all_pools, w.cpool.HostConnection._set_keyspace_for_all_conns,
             w.cpool.HostConnection._replace, w.cconn.Connection.set_keyspace_async,
-            w.cpool.HostConnectionPool._set_keyspace_for_all_conns, w.cpool.HostConnectionPool.return_connection, w.ccl.Cluster.on_down, w.cpool.HostConnectionPool._add_conn_if_under_max]
+            w.cpool.HostConnectionPool._set_keyspace_for_all_conns, w.cpool.HostConnectionPool.return_connection, w.ccl.Cluster.on_down, w.cpool.HostConnectionPool._add_conn_if_under_max] + \
+        [c for c in w.ccl.Session.add_or_renew_pool.__code__.co_consts if getattr(c, 'co_name', None) == 'run_add_or_renew_pool']
 
 
 def run_plan(plan, seed, choices=None):
@@ -172,6 +189,15 @@ def run_plan(plan, seed, choices=None):
                     except Exception:
                         pass
                 w.spawn(trigger, 'trigger')
+            lp = sw.get('late_pool')
+            if lp:
+                # a node went down and came back silently; its reconnection succeeds - and the session opens a new pool to it - just
+                # while this switch is being handed to the pools
+                fc.crash(lp['node'], how='rst', announce=0.0)
+                w.sleep(0.05)
+                fc.restart(lp['node'], announce=None)
+                w.sleep(max(0.0, plan['exec'].get('reconnect_delay', 1.0) - 0.05 - lp['lead']))
+                sim.probe('pool_opened_around_switch')
             if sw['rst_before'] is not None:
                 if sw.get('rst_inflight'):
                     # a request is waiting for that node's (slow) answer when its connection is reset: the request fails, the
